@@ -89,7 +89,7 @@ def worker_init():
     make_links(_dir)
     import atexit; atexit.register(lambda: shutil.rmtree(_dir, ignore_errors=True))
 
-def make_case(graphs):
+def make_case(graphs, FORMATS=FORMATS):
     def case(idx):
         fi = idx % len(FORMATS); g = graphs[idx // len(FORMATS)]; fname, fmt = FORMATS[fi]
         if _dir is None: worker_init()
@@ -243,6 +243,12 @@ def run(tier):
     graphs = graph_cases(tier); n = len(graphs) * len(FORMATS)
     res = pmap.pmap(n, make_case(graphs), deadline_s=dl * 0.9, hang_s=30, describe=lambda i: dict(files={NAMES[k]: file_body(k, m, "<dir>").decode() for k, m in enumerate(graphs[i // len(FORMATS)])}, format=FORMATS[i % len(FORMATS)][0]))
     pmap.fold(rep, "include-graphs", n, res, "%d include graphs x 4 formats" % len(graphs))
+    # the wildcard extension depends on the format: every format the library knows, on the small graphs that use the wildcard
+    ALLF = [("html", 0), ("epub", 1), ("latex", 2), ("beamer", 3), ("memoir", 4), ("fodt", 5), ("odt", 6), ("textbundle", 7), ("bundlezip", 8), ("opml", 9), ("itmz", 10), ("mmd", 11), ("htmlassets", 12)]
+    wg = [g for g in graphs if len(g) == 2 and any("w.*" in m for m in g) and sum(len(m) for m in g) <= 2]
+    nw = len(wg) * len(ALLF)
+    resw = pmap.pmap(nw, make_case(wg, ALLF), deadline_s=dl * 0.2, hang_s=30, describe=lambda i: dict(files={NAMES[k]: file_body(k, m, "<dir>").decode() for k, m in enumerate(wg[i // len(ALLF)])}, format=ALLF[i % len(ALLF)][0]))
+    pmap.fold(rep, "wildcard-all-formats", nw, resw, "%d two-file graphs that use the wildcard marker x all 13 formats of the library" % len(wg))
     case, n2 = marker_len_case()
     res = pmap.pmap(n2, case, workers=2)
     case3, n3 = long_path_case()
